@@ -47,7 +47,7 @@ struct Ledger {
     bool                             scope_open{false};
     bool                             case_scoped{false};   // every case creates and destroys all of its objects
     long                             scope_id{0}, seg{0};
-    std::vector<long>                base;                 // instances live when the scope / segment began
+    std::vector<long>                base, base0;          // instances live when the segment / the scope began
 };
 inline Ledger &ledger() {
     static Ledger *l = new Ledger();
@@ -67,6 +67,8 @@ inline void ledger_segment_end(Ledger &l, int z) {
     if (l.file == nullptr) return;
     fprintf(l.file, "{\"h\":\"%s\",\"c\":%ld,\"seg\":%ld,\"z\":%d,\"base\":[", l.harness, l.scope_id, l.seg++, z);
     for (size_t i = 0; i < l.base.size(); ++i) fprintf(l.file, i ? ",%ld" : "%ld", l.base[i]);
+    fprintf(l.file, "],\"base0\":[");
+    for (size_t i = 0; i < l.base0.size(); ++i) fprintf(l.file, i ? ",%ld" : "%ld", l.base0[i]);
     fprintf(l.file, "],\"ev\":[");
     for (size_t i = 0; i < l.events.size(); ++i) fprintf(l.file, i ? ",%ld" : "%ld", l.events[i]);
     fprintf(l.file, "]}\n");
@@ -80,6 +82,7 @@ inline void scope_begin(long id) {
     l.seg        = 0;
     l.scope_open = true;
     ledger_segment_begin(l);
+    l.base0 = l.base;
     l.enabled = true;
 }
 inline void scope_end(int z) {
@@ -191,7 +194,7 @@ inline void ledger_trace(const char *harness, bool case_scoped) {
     if (p == nullptr || *p == 0) return;
     Ledger &l     = ledger();
     l.enabled     = false;
-    l.file        = fopen(p, "w");
+    l.file        = fopen(p, "a");   // (a crash-recovery restart of the same run appends)
     l.harness     = harness;
     l.case_scoped = case_scoped;
     l.enabled     = true;
